@@ -209,7 +209,12 @@ func cmdCheck(args []string) {
 					hadLocked = true
 				}
 			}
-			if hadLocked {
+			if hadLocked && strings.Contains(r.Err, "unknown identifier") {
+				// the contract names a local variable that the function no longer has
+				// (renamed or removed): the contract needs maintenance; nothing is
+				// decided about this function, which is not evidence of a violation
+				problems = append(problems, "UNDECIDED "+r.Key+": the contract refers to a name the code no longer has ("+r.Err+"); its obligations were not generated")
+			} else if hadLocked {
 				outLines = append(outLines, fmt.Sprintf("VIOLATION property=%s replay=%s obligations of %s no longer generated (%s) no-failing-input-found", *prop, file, r.Key, r.Err))
 				violations++
 			} else {
